@@ -278,6 +278,54 @@ func genC07BGV(c *Ctx) {
 				}
 			}
 
+			// --- modupexact_zone: the tie lines above avoid plaintext coefficients x whose T-multiple is within
+			// 2^-40·Q of ±Q/2, where the float64 quotient estimate of ring.ModUpExact (level > 0, gap = 1) may be
+			// off by one.  This probe pins the exclusion down: OUTSIDE that zone Decode must equal the exact
+			// centred value of T·x mod Q reduced mod t (inside the zone nothing is asserted, mismatches are counted).
+			if rep == 0 && N == rt.N() {
+				for level := 1; level <= L; level++ {
+					rql := rq.AtLevel(level)
+					Q := rql.ModulusAtLevel[level]
+					h := new(big.Int).Rsh(Q, 1)
+					tB := new(big.Int).SetUint64(t)
+					tInv := new(big.Int).ModInverse(tB, Q)
+					detail := ""
+					for k := 0; k < Q.BitLen()-2 && detail == ""; k++ {
+						d := new(big.Int).Lsh(big.NewInt(1), uint(k))
+						for _, sgn := range []int{1, -1} {
+							// centred target y = ±(Q/2 − 2^k); coefficient x = y·T^-1 mod Q
+							y := new(big.Int).Sub(h, d)
+							if sgn < 0 {
+								y.Neg(y)
+							}
+							x := new(big.Int).Mul(y, tInv)
+							x.Mod(x, Q)
+							co := make([]*big.Int, N)
+							for i := range co {
+								co[i] = x
+							}
+							pt := bgv.NewPlaintext(s.params, level)
+							pt.IsBatched = false
+							rql.SetCoefficientsBigint(co, pt.Value)
+							rql.NTT(pt.Value, pt.Value)
+							du := make([]uint64, s.n)
+							if err := s.ecd.Decode(pt, du); err != nil {
+								panic(err)
+							}
+							want := new(big.Int).Mod(y, tB).Uint64()
+							if du[0] != want {
+								if 40+k >= Q.BitLen() {
+									detail = fmt.Sprintf("level=%d distance=2^%d sign=%d got=%d want=%d", level, k, sgn, du[0], want)
+								} else {
+									c.Count("modupexact-inexact-inside-zone")
+								}
+							}
+						}
+					}
+					c.Probe("modupexact_zone", fmt.Sprintf("%s level=%d logQ=%d", s.name, level, Q.BitLen()), "C07-bgv-modupexact-inexact-outside-boundary-zone", detail)
+				}
+			}
+
 			// --- encode_mul: the product of two encodings decodes to the slot-wise product
 			for level := 0; level <= L; level++ {
 				if 2*s.lt+float64(s.logN)+2 > s.logQ[level] {
